@@ -773,6 +773,35 @@ func (ev *EvalCtx) evalCall(e ECall) TV {
 		x := ev.eval(e.Args[0])
 		u := fc.unbox(IPay(x.V.T), types.NewPointer(types.Typ[types.Int]))
 		return TV{V: scalar(PObj(u.T))}
+	case "typetag":
+		// typetag(x): dynamic type tag of interface value x
+		argn(1)
+		x := ev.eval(e.Args[0])
+		return TV{V: scalar(ITag(x.V.T))}
+	case "tagof":
+		// tagof("T"): the tag of concrete type T
+		argn(1)
+		sarg, ok := e.Args[0].(EStr)
+		if !ok {
+			ev.fail("tagof needs a type string")
+		}
+		t := ev.resolveType(sarg.V)
+		tag := fc.eng.ti.TagOf(t)
+		fc.concreteTags[tag] = t
+		return TV{V: scalar(IntLit(int64(tag)))}
+	case "iface":
+		// iface(x): the interface value holding x (boxed with x's static type); nil pointers give a typed nil
+		argn(1)
+		x := ev.eval(e.Args[0])
+		if x.T == nil {
+			ev.fail("iface() of untyped value")
+		}
+		if _, isI := x.T.Underlying().(*types.Interface); isI {
+			return x
+		}
+		tag := fc.eng.ti.TagOf(x.T)
+		fc.concreteTags[tag] = x.T
+		return TV{V: scalar(MkIface(IntLit(int64(tag)), fc.box(x.V, x.T)))}
 	case "emptyiface":
 		// emptyiface("T"): the interface value holding the (unique) value of zero-size type T
 		argn(1)
